@@ -94,6 +94,8 @@ class Declared:
         if e[0] == "tuple" and len(e) == 2:
             # Expr::tuple([e]) is the builder's way to parenthesise: DEFAULT (expr)
             return "(" + cls.expr_text(e[1]) + ")"
+        if e[0] == "bin":
+            return cls.expr_text(e)      # a computed default written without the builder's parenthesised form
         raise ValueError("default %r" % (e,))
 
     @classmethod
@@ -355,6 +357,8 @@ class SGen:
         specs = []
         int_kind = role in ("pk", "pkauto") and (role == "pkauto" or r.random() < 0.6)
         ty = self.ty(int_only=int_kind)
+        if role == "pkauto" and r.random() < 0.8:
+            ty = r.choice(["int", "uint", "bigint", "ubigint"])    # (the narrower kinds hit a known finding)
         is_int = type_head(sexp.parse(ty) if ty.startswith("(") else ty) in INT_KINDS
         if role in ("pk", "pkauto"):
             specs.append("(pk)")
@@ -481,7 +485,7 @@ class SGen:
         if r.random() < 0.3:
             r.shuffle(body)
         emit("(tcreate %s)" % " ".join(cl + body))
-        if r.random() < 0.1:
+        if r.random() < 0.1 and d.tables.get(child) and not d.tables[child]["temp"]:
             emit("(tcreate (table (t %s)) (ifnotexists) (col (cd %s int)))" % (hexs(child), hexs("zz")))
         # a sequence of ALTER / RENAME / CREATE INDEX / DROP statements
         cur = child
@@ -498,7 +502,12 @@ class SGen:
                 cd, _ = self.coldef(n, intc, None, alter=True)
                 emit("(talter (table (t %s)) (%s %s))" % (hexs(cur), r.choice(["addcol", "addcol", "addcoline"]), cd))
             elif k < 0.4 and pool:
-                emit("(talter (table (t %s)) (rencol %s %s))" % (hexs(cur), hexs(r.choice(names)), hexs(pool.pop())))
+                new = pool.pop()
+                if "'" in new:
+                    # sqlite3 3.40 re-parses the rewritten schema and reads "a'b" in a key column list as an expression
+                    # (an engine quirk of RENAME COLUMN, independent of the statement text)
+                    continue
+                emit("(talter (table (t %s)) (rencol %s %s))" % (hexs(cur), hexs(r.choice(names)), hexs(new)))
             elif k < 0.5:
                 used = set(x.lower() for x, _ in t["pk"])
                 for u in t["uniques"]:
@@ -559,6 +568,10 @@ def nospace(s):
     return "".join(s.split())
 
 
+def unparen(s):
+    return s[1:-1] if s.startswith("(") and s.endswith(")") else s
+
+
 def compare(con, d):
     """compare the engine's catalogue with the declared state; returns a failure text or None"""
     masters = con.execute("SELECT type, name, tbl_name, sql FROM sqlite_master UNION ALL "
@@ -578,7 +591,7 @@ def compare(con, d):
             return "table %s: columns (name, notnull, hidden) %r, declared %r" % (
                 tn, [(g[0], g[1], g[3]) for g in got], [(w[0], w[1], w[3]) for w in want])
         for g, w in zip(got, want):
-            if (g[2] is None) != (w[2] is None) or (g[2] is not None and nospace(g[2]) != nospace(w[2])):
+            if (g[2] is None) != (w[2] is None) or (g[2] is not None and unparen(nospace(g[2])) != unparen(nospace(w[2]))):
                 return "table %s column %s: default %r, declared %r" % (tn, g[0], g[2], w[2])
         pk_got = [r[1] for r in sorted((r for r in info if r[5] > 0), key=lambda r: r[5])]
         if [x.lower() for x in pk_got] != [x.lower() for x, _ in t["pk"]]:
@@ -590,12 +603,23 @@ def compare(con, d):
             if origin == "u":
                 uniq_got.append(tuple((c.lower(), dsc) for c, dsc in cols))
             elif origin == "pk":
-                if [(c.lower(), dsc) for c, dsc in cols] != [(c.lower(), dsc) for c, dsc in t["pk"]]:
+                # (a UNIQUE constraint over the same columns is merged with the primary key index by the engine,
+                # whichever direction it declares)
+                merged = any([c.lower() for c, _ in u] == [c.lower() for c, _ in t["pk"]] for u in t["uniques"])
+                if [c.lower() for c, _ in cols] != [c.lower() for c, _ in t["pk"]] or \
+                        (not merged and [dsc for _, dsc in cols] != [dsc for _, dsc in t["pk"]]):
                     return "table %s: primary key index %r, declared %r" % (tn, cols, t["pk"])
             else:
                 created[iname] = (cols, bool(unique), bool(partial))
+        # SQLite keeps one index per column list: a UNIQUE constraint over the columns of the primary key or of an
+        # earlier UNIQUE constraint (in any direction) is implied and gets no index of its own
         uniq_want = set(tuple((c.lower(), dsc) for c, dsc in u) for u in t["uniques"])
-        if set(uniq_got) != uniq_want:
+        names = lambda u: tuple(c for c, _ in u)   # noqa
+        pk_names = tuple(c.lower() for c, _ in t["pk"])
+        got_n = set(names(u) for u in uniq_got)
+        want_n = set(names(u) for u in uniq_want)
+        if not (got_n <= want_n and want_n - {pk_names} <= got_n and set(uniq_got) <= uniq_want
+                and len(uniq_got) == len(got_n)):
             return "table %s: unique constraints %r, declared %r" % (tn, sorted(set(uniq_got)), sorted(uniq_want))
         want_created = {n: ix for n, ix in d.indexes.items() if ix["table"] == tn}
         if sorted(created) != sorted(want_created):
@@ -631,12 +655,14 @@ def compare(con, d):
         marks = ", ".join("?" for _ in ins)
         con.execute("SAVEPOINT probe")
         try:
+            rows = []
             try:
-                con.execute("INSERT INTO %s (%s) VALUES (%s)" % (q(tn), collist, marks), ["123"] * len(ins))
-                con.execute("INSERT INTO %s (%s) VALUES (%s)" % (q(tn), collist, marks), [7] * len(ins))
+                for probe in ("123", 7):
+                    con.execute("DELETE FROM %s" % q(tn))
+                    con.execute("INSERT INTO %s (%s) VALUES (%s)" % (q(tn), collist, marks), [probe] * len(ins))
+                    rows.append(con.execute("SELECT %s FROM %s" % (", ".join("typeof(%s)" % q(c["name"]) for c in ins), q(tn))).fetchone())
             except sqlite3.Error as e:
                 return "table %s: probe rows rejected: %s" % (tn, e)
-            rows = con.execute("SELECT %s FROM %s ORDER BY rowid" % (", ".join("typeof(%s)" % q(c["name"]) for c in ins), q(tn))).fetchall()
             for i, c in enumerate(ins):
                 aff = INTENDED[type_head(c["ty"])]
                 seen = (rows[0][i], rows[1][i])
